@@ -572,18 +572,31 @@ theorem execBody_good (l l' : Ledger) (signer : Nat) (body : TxBody) (hs : signe
 
 /-- **Every transaction, successful or not, leaves a ledger that satisfies the invariant**: a failed
 fee payment persists nothing, a failed body persists only the fee payment and the nonce. -/
-theorem applyTx_good (l : Ledger) (signer nonce fee : Nat) (body : TxBody) (hs : signer < l.n)
-    (hb : bodyScoped l.n body) (h : Inv l) : Good l (applyTx l signer nonce fee body).1 := by
+theorem execBodyGas_ok (l l' : Ledger) (signer : Nat) (g : TxGas) (body : TxBody)
+    (hok : execBodyGas l signer g body = .ok l') : execBody l signer body = .ok l' := by
+  unfold execBodyGas at hok
+  dsimp only at hok
+  split at hok; · cases hok
+  split at hok
+  · split at hok; · cases hok
+    split at hok; · cases hok
+    exact hok
+  · split at hok; · cases hok
+    exact hok
+
+theorem applyTx_good (l : Ledger) (signer nonce fee : Nat) (g : TxGas) (body : TxBody) (hs : signer < l.n)
+    (hb : bodyScoped l.n body) (h : Inv l) : Good l (applyTx l signer nonce fee g body).1 := by
   unfold applyTx
   cases h1 : payFee l signer nonce fee with
   | error e => exact Good.refl h
   | ok l1 =>
     have g1 := payFee_good l l1 signer nonce fee hs h h1
     simp only
-    cases h2 : execBody l1 signer body with
+    cases h2 : execBodyGas l1 signer g body with
     | error e => exact g1
     | ok l2 =>
-      have g2 := execBody_good l1 l2 signer body (by rw [g1.n_eq]; exact hs) (by rw [g1.n_eq]; exact hb) g1.inv h2
+      have g2 := execBody_good l1 l2 signer body (by rw [g1.n_eq]; exact hs) (by rw [g1.n_eq]; exact hb) g1.inv
+        (execBodyGas_ok l1 l2 signer g body h2)
       exact g1.trans g2
 
 /-! ### Account-only changes (credits to general balances) -/
@@ -842,6 +855,9 @@ theorem rewardAccount_good (l l' : Ledger) (a q : Nat) (ha : a < l.n) (h : Inv l
     simp only [hc] at hok
     have hsum := computeCommission_ok hc
     have hsup := h.supply
+    by_cases hmv : l.common < rest
+    · simp [hmv] at hok
+    simp only [hmv, if_false] at hok
     by_cases hcom : com = 0
     · simp only [hcom, if_true] at hok
       injection hok with hok; subst hok
@@ -1245,6 +1261,7 @@ theorem rewardAccount_feeAcc (l l' : Ledger) (a q : Nat) (hok : rewardAccount l 
   split at hok; · injection hok with hok; subst hok; rfl
   dsimp only at hok
   split at hok; · cases hok
+  split at hok; · cases hok
   split at hok
   · injection hok with hok; subst hok; rfl
   · split at hok
@@ -1536,29 +1553,29 @@ theorem execBody_burned (l l' : Ledger) (signer : Nat) (body : TxBody) (hs : sig
     simp only [execBody, burnOf, Nat.add_zero] at hok ⊢
     unfold Ledger.withdraw at hok; dsimp only at hok; frame_cases hok
 
-theorem applyTx_cases (l : Ledger) (signer nonce fee : Nat) (body : TxBody) :
-    (∃ e, payFee l signer nonce fee = .error e ∧ applyTx l signer nonce fee body = (l, some e)) ∨
-    (∃ l1 e, payFee l signer nonce fee = .ok l1 ∧ execBody l1 signer body = .error e ∧
-        applyTx l signer nonce fee body = (l1, some e)) ∨
+theorem applyTx_cases (l : Ledger) (signer nonce fee : Nat) (g : TxGas) (body : TxBody) :
+    (∃ e, payFee l signer nonce fee = .error e ∧ applyTx l signer nonce fee g body = (l, some e)) ∨
+    (∃ l1 e, payFee l signer nonce fee = .ok l1 ∧ execBodyGas l1 signer g body = .error e ∧
+        applyTx l signer nonce fee g body = (l1, some e)) ∨
     (∃ l1 l2, payFee l signer nonce fee = .ok l1 ∧ execBody l1 signer body = .ok l2 ∧
-        applyTx l signer nonce fee body = (l2, none)) := by
+        applyTx l signer nonce fee g body = (l2, none)) := by
   unfold applyTx
   cases h1 : payFee l signer nonce fee with
   | error e => exact Or.inl ⟨e, rfl, rfl⟩
   | ok l1 =>
-    cases h2 : execBody l1 signer body with
+    cases h2 : execBodyGas l1 signer g body with
     | error e => exact Or.inr (Or.inl ⟨l1, e, rfl, h2, by simp [h2]⟩)
-    | ok l2 => exact Or.inr (Or.inr ⟨l1, l2, rfl, h2, by simp [h2]⟩)
+    | ok l2 => exact Or.inr (Or.inr ⟨l1, l2, rfl, execBodyGas_ok l1 l2 signer g body h2, by simp [h2]⟩)
 
 /-- **A transaction changes the total supply only if it is a successful burn (or transfer to the
 burn address), and then by exactly the burned amount.** -/
-theorem applyTx_supply (l : Ledger) (signer nonce fee : Nat) (body : TxBody) (hs : signer < l.n)
+theorem applyTx_supply (l : Ledger) (signer nonce fee : Nat) (gas : TxGas) (body : TxBody) (hs : signer < l.n)
     (hb : bodyScoped l.n body) (h : Inv l) :
-    (applyTx l signer nonce fee body).1.totalSupply
-      + (if (applyTx l signer nonce fee body).2 = none then burnOf l body else 0) = l.totalSupply := by
-  have g := applyTx_good l signer nonce fee body hs hb h
+    (applyTx l signer nonce fee gas body).1.totalSupply
+      + (if (applyTx l signer nonce fee gas body).2 = none then burnOf l body else 0) = l.totalSupply := by
+  have g := applyTx_good l signer nonce fee gas body hs hb h
   have hsup := g.supply
-  rcases applyTx_cases l signer nonce fee body with ⟨e, h1, he⟩ | ⟨l1, e, h1, h2, he⟩ | ⟨l1, l2, h1, h2, he⟩
+  rcases applyTx_cases l signer nonce fee gas body with ⟨e, h1, he⟩ | ⟨l1, e, h1, h2, he⟩ | ⟨l1, l2, h1, h2, he⟩
   · rw [he]; simp
   · rw [he] at hsup ⊢
     obtain ⟨b1, p1⟩ := payFee_burned l l1 signer nonce fee h1
@@ -1790,7 +1807,7 @@ def ParamsScoped (l : Ledger) : Prop :=
   (∀ e ∈ l.params.validators, e < l.n) ∧ (∀ a ∈ l.params.pkOrder, a < l.n)
 
 def opScoped (n : Nat) : Op → Prop
-  | .tx s _ _ b => s < n ∧ bodyScoped n b
+  | .tx s _ _ _ b => s < n ∧ bodyScoped n b
   | .slash a _ => a < n
   | .transferFromCommon d _ _ => d < n
   | .addRewards _ _ as => ∀ a ∈ as, a < n
@@ -1810,7 +1827,7 @@ theorem keep_good {l : Ledger} {r : Except LErr Ledger} (h : Inv l) (hr : ∀ l'
 /-- **Every operation inside a block — successful or not — preserves the invariant.** -/
 theorem applyOp_good (l : Ledger) (o : Op) (hsc : opScoped l.n o) (h : Inv l) : Good l (applyOp l o) := by
   cases o with
-  | tx s n f b => exact applyTx_good l s n f b hsc.1 hsc.2 h
+  | tx s n f g b => exact applyTx_good l s n f g b hsc.1 hsc.2 h
   | slash a amt => exact keep_good h (fun l' hl => slashEscrowL_good l l' a amt hsc h hl)
   | transferFromCommon d amt e => exact keep_good h (fun l' hl => transferFromCommon_good l l' d amt e hsc h hl)
   | addRewards ep f as => exact keep_good h (fun l' hl => addRewards_good l l' ep f as hsc h hl)
@@ -1934,8 +1951,8 @@ an escrow, a reclaim, a withdraw against an allowance, an invalid transaction (b
 governance deposit. -/
 def exBlock : Block :=
   { newEpoch := some 2, proposer := some 0, numEligible := 2, voters := [0], evidence := [0],
-    ops := [.tx 1 0 5 (.transfer 0 100), .tx 1 1 0 (.burn 40), .tx 1 2 3 (.addEscrow 0 250),
-            .tx 1 3 0 (.reclaimEscrow 0 60), .tx 0 0 1 (.withdraw 1 50), .tx 0 7 0 (.burn 1),
+    ops := [.tx 1 0 5 {} (.transfer 0 100), .tx 1 1 0 {} (.burn 40), .tx 1 2 3 {} (.addEscrow 0 250),
+            .tx 1 3 0 {} (.reclaimEscrow 0 60), .tx 0 0 1 {} (.withdraw 1 50), .tx 0 7 0 {} (.burn 1),
             .govDeposit 1 20, .transferFromCommon 0 300 true] }
 
 example : blockScoped exLedger.n exBlock := by
@@ -2109,8 +2126,9 @@ theorem reclaimEscrow_wf (l l' : Ledger) (d e sh : Nat) (h : PoolsWF l) (hok : r
   injection hr with hr; subst hr
   exact poolsWF_setAcct _ e _ h (withdraw_wf _ _ _ _ _ hw (h e).1) (deposit_wf _ _ _ _ _ hdp (h e).2)
 
-theorem applyTx_wf (l : Ledger) (s n f : Nat) (b : TxBody) (h : PoolsWF l) : PoolsWF (applyTx l s n f b).1 := by
-  rcases applyTx_cases l s n f b with ⟨e, h1, he⟩ | ⟨l1, e, h1, h2, he⟩ | ⟨l1, l2, h1, h2, he⟩
+theorem applyTx_wf (l : Ledger) (s n f : Nat) (g : TxGas) (b : TxBody) (h : PoolsWF l) :
+    PoolsWF (applyTx l s n f g b).1 := by
+  rcases applyTx_cases l s n f g b with ⟨e, h1, he⟩ | ⟨l1, e, h1, h2, he⟩ | ⟨l1, l2, h1, h2, he⟩
   · rw [he]; exact h
   · rw [he]; exact (payFee_samePools l l1 s n f h1).wf h
   · rw [he]
@@ -2137,6 +2155,7 @@ theorem rewardAccount_wf (l l' : Ledger) (a q : Nat) (h : PoolsWF l)
   have hb : (l.acct a).active.balance ≠ 0 := fun hb => hq0 (hq hb)
   have hts : (l.acct a).active.totalShares ≠ 0 := fun ht => hb ((h a).1 ht)
   have hw1 : WF { (l.acct a).active with balance := (l.acct a).active.balance + rest } := fun ht => absurd ht hts
+  split at hok; · cases hok
   split at hok
   · injection hok with hok; subst hok
     exact poolsWF_upd l.acct a _ rfl h hw1 (h a).2
@@ -2290,7 +2309,7 @@ theorem transferFromCommon_wf (l l' : Ledger) (d amt : Nat) (e : Bool) (h : Pool
 
 theorem applyOp_wf (l : Ledger) (o : Op) (h : PoolsWF l) : PoolsWF (applyOp l o) := by
   cases o with
-  | tx s n f b => exact applyTx_wf l s n f b h
+  | tx s n f g b => exact applyTx_wf l s n f g b h
   | slash a amt =>
     simp only [applyOp]; cases hr : slashEscrowL l a amt with
     | error e => exact h
